@@ -203,6 +203,10 @@ func runC20(c *Ctx) {
 			}
 			return false
 		}))
+		if !okAssets {
+			// the rendered buffer itself may be handed over (its Bytes() being taken by the serving side at construction)
+			okAssets = sameOrigins(unboxed(sv.Call.Args[1]), unboxed(eargs[0]))
+		}
 		c.obI("R20.1", sv, "ui-serves-the-rendering", okAssets && dominates(ex, sv), "serveUI serves the bytes rendered by the template at construction time", "assets argument is not the buffer Execute wrote")
 		okNext, _ := allOrigins(sv.Call.Args[2], oIsValue(f.Params[1]))
 		c.obI("R20.1", sv, "ui-next", okNext, "the UI middleware forwards to the handler it was given", "")
